@@ -80,3 +80,137 @@ def enum_pred(f, path, idx, depth=0):
             return None
         out = r
     return out
+
+
+# ------------------------------------------------------------------ predicates over the first byte of a byte string, evaluated for all 256 values
+
+_INT_BITS = {'u8': 8, 'u16': 16, 'u32': 32, 'u64': 64, 'usize': 64, 'i8': 8, 'i16': 16, 'i32': 32, 'i64': 64, 'isize': 64, 'u128': 128, 'i128': 128}
+
+
+def _first_byte_src(t):
+    """the slice term S when t is the first byte of S: *(S.first() as Some).0, S[0], *(S.get(0) as Some).0; else None"""
+    t0 = t
+    for _ in range(6):
+        if isinstance(t0, tuple) and t0 and t0[0] in ('deref', 'ref'):
+            t0 = t0[1]
+        else:
+            break
+    if t0[0] == 'field' and t0[1][0] == 'downcast' and t0[1][2] == 'Some' and t0[1][1][0] == 'call':
+        c = t0[1][1]
+        nm = canon(c[1])
+        if nm.endswith('::first') and c[2]:
+            return deref_all(c[2][0])
+        if nm.endswith('::get') and len(c[2]) == 2 and deref_all(c[2][1])[0] == 'const' and deref_all(c[2][1])[1] == 0:
+            return deref_all(c[2][0])
+    if t0[0] == 'index' and deref_all(t0[2])[0] == 'const' and deref_all(t0[2])[1] == 0:
+        return deref_all(t0[1])
+    return None
+
+
+def first_byte_table(f, path):
+    """For a `fn(..) -> bool` whose answer depends only on the first byte of one byte string (and on whether there is one): the set of
+    first-byte values for which it answers true, and its answer for the empty string — ({values}, empty_answer); None if the function is
+    not of that form or a step of its computation is not evaluated here."""
+    b = f.bodies.get(path)
+    if b is None or str(b.local_ty(0).get('s')) != 'bool':
+        return None
+    ps, capped = explore(b, max_paths=400)
+    if capped or not ps:
+        return None
+    src = [None]
+
+    class Unknown(Exception):
+        pass
+
+    def ev(t, v):
+        """v: byte value 0..255, or None for the empty string"""
+        s0 = _first_byte_src(t)
+        if s0 is not None:
+            if src[0] is None:
+                src[0] = s0
+            elif src[0] != s0:
+                raise Unknown()
+            if v is None:
+                raise Unknown()
+            return v
+        t = deref_all(t)
+        k = t[0]
+        if k == 'const':
+            if isinstance(t[1], (int, bool)):
+                return t[1]
+            raise Unknown()
+        if k == 'discr' and t[1][0] == 'call' and canon(t[1][1]).endswith(('::first', '::get')):
+            return 0 if v is None else 1
+        if k == 'call' and canon(t[1]).endswith(('slice::is_empty', 'Vec::is_empty')) and t[2]:
+            return v is None
+        if k == 'call' and canon(t[1]).endswith(('Option::is_some', 'Option::is_none')) and t[2] and deref_all(t[2][0])[0] == 'call' and canon(deref_all(t[2][0])[1]).endswith(('::first', '::get')):
+            some = v is not None
+            return some if canon(t[1]).endswith('is_some') else not some
+        if k == 'cast' and t[1] == 'IntToInt':
+            x = ev(t[2], v)
+            bits = _INT_BITS.get(t[3])
+            if bits is None or isinstance(x, bool):
+                raise Unknown()
+            return x & ((1 << bits) - 1)
+        if k == 'un' and t[1] == 'Not':
+            x = ev(t[2], v)
+            return (not x) if isinstance(x, bool) else ~x
+        if k == 'bin':
+            a, c = ev(t[2], v), ev(t[3], v)
+            op = t[1]
+            if op in ('Eq', 'Ne', 'Lt', 'Le', 'Gt', 'Ge'):
+                return {'Eq': a == c, 'Ne': a != c, 'Lt': a < c, 'Le': a <= c, 'Gt': a > c, 'Ge': a >= c}[op]
+            if op in ('BitAnd', 'BitOr', 'BitXor'):
+                if isinstance(a, bool) and isinstance(c, bool):
+                    return {'BitAnd': a and c, 'BitOr': a or c, 'BitXor': a != c}[op]
+                return {'BitAnd': a & c, 'BitOr': a | c, 'BitXor': a ^ c}[op]
+            if op == 'Shl':
+                return (a << c) & ((1 << 64) - 1)
+            if op == 'Shr':
+                return a >> c
+            if op in ('Add', 'Sub', 'Mul'):
+                return {'Add': a + c, 'Sub': a - c, 'Mul': a * c}[op]
+        if k == 'ovf':
+            ev(t[2], v), ev(t[3], v)
+            return False
+        raise Unknown()
+
+    def run(v):
+        ans = None
+        for q in ps:
+            if q.end[0] not in ('return', 'unreachable'):
+                raise Unknown()
+            feasible = True
+            for c in q.conds:
+                x = ev(c[0], v)
+                if c[1] == 'eq':
+                    ok = (x == c[2])
+                elif c[1] == 'ne':
+                    ok = x not in (c[2] if isinstance(c[2], tuple) else (c[2],))
+                else:
+                    raise Unknown()
+                if not ok:
+                    feasible = False
+                    break
+            if not feasible:
+                continue
+            if q.end[0] == 'unreachable':
+                raise Unknown()
+            r = ev(q.ret, v)
+            if not isinstance(r, bool) or (ans is not None and ans != r):
+                raise Unknown()
+            ans = r
+        if ans is None:
+            raise Unknown()
+        return ans
+
+    try:
+        vals = {v for v in range(256) if run(v)}
+        empty = run(None)
+    except Unknown:
+        return None
+    except Exception:
+        return None
+    if src[0] is None:
+        return None
+    return vals, empty
